@@ -348,6 +348,72 @@ def slice_assumptions(assumptions, goal):
     return keep
 
 
+_NL = {}
+
+
+def abstract_nonlinear(formulas):
+    """replace every product of >= 2 non-numeral factors, every division by a non-numeral and every power by an
+    application of an uninterpreted function of its (abstracted) arguments.  The abstraction forgets everything about
+    multiplication except that it is a function, so `unsat` of the abstraction implies `unsat` of the original
+    (sound for proving; a `sat` answer means nothing).  Makes goals that are equal up to substitution / case
+    analysis (loop step checks over large rational terms) pure EUF + linear arithmetic."""
+    cache = {}
+
+    def fn(kind, sorts, rng):
+        key = (kind, tuple(str(x) for x in sorts), str(rng))
+        if key not in _NL:
+            _NL[key] = z3.Function(f"NL{kind}{len(_NL)}", *sorts, rng)
+        return _NL[key]
+
+    def is_num(e):
+        return z3.is_int_value(e) or z3.is_rational_value(e)
+
+    def walk(e):
+        i = e.get_id()
+        if i in cache:
+            return cache[i][1]
+        if z3.is_quantifier(e) or not z3.is_app(e) or e.num_args() == 0:
+            cache[i] = (e, e)
+            return e
+        kids = [walk(c) for c in e.children()]
+        k = e.decl().kind()
+        r = None
+        if k == z3.Z3_OP_MUL:
+            nums = [c for c in kids if is_num(c)]
+            rest = [c for c in kids if not is_num(c)]
+            if len(rest) >= 2:
+                rest = sorted(rest, key=lambda t: t.sexpr())
+                r = fn("mul", [c.sort() for c in rest], e.sort())(*rest)
+                for c in nums:
+                    r = c * r
+        elif k in (z3.Z3_OP_DIV, z3.Z3_OP_IDIV, z3.Z3_OP_MOD) and not is_num(kids[1]):
+            r = fn({z3.Z3_OP_DIV: "div", z3.Z3_OP_IDIV: "idiv", z3.Z3_OP_MOD: "mod"}[k], [c.sort() for c in kids], e.sort())(*kids)
+        elif k == z3.Z3_OP_POWER:
+            r = fn("pow", [c.sort() for c in kids], e.sort())(*kids)
+        if r is None:
+            r = e.decl()(*kids)
+        cache[i] = (e, r)
+        return r
+    import sys
+    sys.setrecursionlimit(max(sys.getrecursionlimit(), 50000))
+    return [walk(z3.simplify(f)) for f in formulas]
+
+
+def _try_uf_abstraction(formulas, timeout_s):
+    try:
+        fs = abstract_nonlinear(formulas)
+    except Exception:  # pragma: no cover
+        return False
+    s = z3.Solver()
+    s.set("timeout", int(timeout_s * 1000))
+    for f in fs:
+        s.add(f)
+    try:
+        return s.check() == z3.unsat
+    except z3.Z3Exception:  # pragma: no cover
+        return False
+
+
 def prove(assumptions, goal, timeout_s=10, opts=None, rounds=2):
     """PROVED iff assumptions ∧ axiom-instances ∧ ¬goal is unsat"""
     t0 = time.time()
@@ -370,6 +436,10 @@ def prove(assumptions, goal, timeout_s=10, opts=None, rounds=2):
     base = [a for a in assumptions] + [z3.Not(goal)]
     inst = axioms.saturate(base, rounds=rounds, opts=opts)
     formulas = base + inst
+    if (opts or {}).get("uf_abstraction"):
+        # opt-in accelerator: nonlinear operators as uninterpreted functions (sound for `unsat`)
+        if _try_uf_abstraction(formulas, min(timeout_s, (opts or {}).get("uf_abstraction_timeout", 5))):
+            return Verdict(PROVED, "z3-5.1(nonlinear-terms-as-UF)", (time.time() - t0) * 1000)
     res, model, backend, ms = check_formulas(formulas, timeout_s)
     if res == "unsat":
         return Verdict(PROVED, backend, ms)
